@@ -399,7 +399,7 @@ class Index:
 _BUILTIN_EXC_PARENT = {
     'BaseException': None, 'Exception': 'BaseException', 'ArithmeticError': 'Exception',
     'OverflowError': 'ArithmeticError', 'ZeroDivisionError': 'ArithmeticError',
-    'FloatingPointError': 'ArithmeticError', 'InvalidOperation': 'ArithmeticError',
+    'FloatingPointError': 'ArithmeticError', 'InvalidOperation': 'DecimalException',
     'DecimalException': 'ArithmeticError',
     'LookupError': 'Exception', 'KeyError': 'LookupError', 'IndexError': 'LookupError',
     'ValueError': 'Exception', 'UnicodeError': 'ValueError', 'UnicodeDecodeError': 'UnicodeError',
